@@ -35,6 +35,7 @@ EXPLANATION = (
     "whole documents, renderers' own output."
 )
 RULE_KINDS = {
+    "sink/output-not-rewritten": "structural", "slot/decision-by-presence": "structural", "slot/frame-popped": "structural", "slot/frame-scope": "bounded", "slot/nearest-frame-wins": "finite-exhaustive", "flatten/terminators-with-control-characters": "bounded",
     "sink/": "structural", "attribute/": "structural", "children/": "structural", "recursion/": "structural",
     "escaper/all-bytes": "finite-exhaustive", "escaper/rewrite-order": "structural", "escaper/metacharacters": "structural", "escaper/attribute-chain": "structural",
     "flatten/": "bounded", "escaper/": "bounded",
@@ -69,6 +70,27 @@ def check(ctx):
             raise AnalysisError(f"C28/flatten: _flattenElement uses a construct the evaluator cannot interpret: {e}")
     with ctx.section("buffer"):
         _buffer(ctx)
+    with ctx.section("s-writer-chain"):
+        structural(ctx, "sink/output-not-rewritten", "flatten/terminators-with-control-characters (bounded)", _s_writer_chain, ctx)
+    with ctx.section("s-slot-lookup"):
+        structural(ctx, "slot/decision-by-presence", "slot/nearest-frame-wins (finite-exhaustive)", _s_slot_lookup, ctx)
+    with ctx.section("s-slot-frames"):
+        structural(ctx, "slot/frame-popped", "slot/frame-scope (bounded)", _s_slot_frames, ctx)
+    with ctx.section("slot-scope"):
+        try:
+            _slot_scope(ctx)
+        except InterpError as e:
+            raise AnalysisError(f"C28/slot-scope: {e}")
+    with ctx.section("fe-slot-lookup"):
+        try:
+            _fe_slot_lookup(ctx)
+        except InterpError as e:
+            raise AnalysisError(f"C28/fe-slot-lookup: _getSlotValue uses a construct the evaluator cannot interpret: {e}")
+    with ctx.section("flatten-control-characters"):
+        try:
+            _flatten_control(ctx)
+        except InterpError as e:
+            raise AnalysisError(f"C28/flatten-control-characters: the writer chain uses a construct the evaluator cannot interpret: {e}")
     with ctx.section("escapers-structure"):
         _escaper_structure(ctx)
     with ctx.section("escapers-content"):
@@ -138,8 +160,17 @@ def _flatten(w, root):
             v.run(hook)
         elif isinstance(v, MDeferred):
             v.addCallback(lambda r: (hook(r), r)[1])
-    thunk = w.funcs["_flattenElement"](None, root, out.append, [], None, w.funcs["escapeForContent"])
-    thunk.run(hook)
+    def tree(request, root_, write):
+        # _flattenTree's depth-first trampoline (its buffering is decided structurally: recursion/buffer-order)
+        thunk = w.funcs["_flattenElement"](request, root_, write, [], None, w.funcs["escapeForContent"])
+        thunk.run(hook)
+        return None
+    w.funcs["_flattenTree"] = tree
+    w.funcs["ensureDeferred"] = lambda x: x
+    if w.mod.find("flatten") is not None:
+        w.funcs["flatten"](None, root, out.append)          # the writer chain of the public entry point is interpreted too
+    else:
+        tree(None, root, out.append)
     return b"".join(out)
 
 
@@ -243,6 +274,19 @@ def _trees():
     out += [Tag("p", {}, ["a", CharRef(38), CharRef(60), "b"]), Tag("br"), Tag("img", {"alt": "<x>"}), Tag("p", {}, [Tag("", {}, ["inner <t>", Tag("i", {}, ["&"])])]),
             Tag("ul", {}, [[Tag("li", {}, [str(i), "<"]) for i in range(3)], ("t1", "t2")]), Tag("p", {}, [fired]), Tag("p", {b"id": b"x&y"}, [b"<bytes>"]),
             Tag("p", {}, [Comment("fine comment"), "after"]), Tag("span", {"a": ["l1", "<l2>", Tag("q")]}, [])]
+    # slots filled with every hostile value - in particular the EMPTY ones - under an outer fill of the same name, with a default, and in sibling rows
+    for h in HOSTILE + [b"", [], ()]:
+        inner = Tag("span", {"title": slot("v")}, [slot("v", default="DEFAULT")])
+        inner.slotData = {"v": h}
+        outer = Tag("div", {}, [slot("v"), "[", inner, "]"])
+        outer.slotData = {"v": "OUTER <fill>"}
+        out.append(outer)
+    rows = []
+    for h in ("<first row>", "", "third"):
+        li = Tag("li", {}, [slot("cell")])
+        li.slotData = {"cell": h}
+        rows.append(li)
+    out.append(Tag("ul", {}, [rows]))
     t = Tag("p", {"title": slot("who")}, ["hello ", slot("who"), slot("missing", default="dflt")])
     t.slotData = {"who": "<World> & \"co\""}
     out.append(t)
@@ -509,6 +553,255 @@ def _buffer(ctx):
     ctx.check(not others, "recursion/buffer-order", q[:-1] + " | no direct writes", "_flattenTree writes to the upstream writer around the buffer")
 
 
+def _s_writer_chain(ctx):
+    """STRUCTURAL: between the context's escaper and the caller's sink the bytes are only passed on (identity) or concatenated (the buffer): every writer that the public entry
+    points hand down is the caller's writer itself or a nested function that forwards its argument unchanged.  A step that deletes / translates / re-encodes bytes after
+    escaping would invalidate what the escapers guarantee (they looked for terminators in the bytes BEFORE that step)"""
+    fl = ctx.func(FL, "flatten")
+    q = Q + "flatten"
+    up = param_names(fl)[2] if len(param_names(fl)) > 2 else None
+    starts = [c for c in walk_local(fl) if isinstance(c, ast.Call) and call_name(c) == "_flattenTree"]
+    if up is None or len(starts) != 1 or len(starts[0].args) < 3:
+        raise Abstain("flatten() does not hand its writer to _flattenTree positionally")
+    handed = starts[0].args[2]
+    nested = {n.name: n for n in ast.walk(fl) if isinstance(n, ast.FunctionDef) and n is not fl}
+    if isinstance(handed, ast.Name) and handed.id == up:
+        ctx.ok("sink/output-not-rewritten", q + " | writer handed to _flattenTree")
+    elif (isinstance(handed, ast.Name) and handed.id in nested) or isinstance(handed, ast.Lambda):
+        wf = nested[handed.id] if isinstance(handed, ast.Name) else handed
+        ps = [a.arg for a in wf.args.args]
+        calls = [c for c in ast.walk(wf) if isinstance(c, ast.Call) and isinstance(c.func, ast.Name) and c.func.id == up]
+        if not calls or len(ps) != 1:
+            raise Abstain(f"the wrapper {getattr(wf, 'name', '<lambda>')} does not call the caller's writer")
+        for c in calls:
+            a = c.args[0] if len(c.args) == 1 and not c.keywords else None
+            same = isinstance(a, ast.Name) and a.id == ps[0] and not any(isinstance(st, (ast.Assign, ast.AugAssign)) and ps[0] in [src(t) for t in getattr(st, "targets", [getattr(st, "target", None)]) if t is not None]
+                                                                          for st in ast.walk(wf))
+            ctx.check(same, "sink/output-not-rewritten", q + f".{getattr(wf, 'name', '<lambda>')} | {src(c)[:70]}",
+                      f"the writer handed to the flattener passes `{src(a) if a is not None else src(c)}` on instead of the bytes it was given: output is rewritten AFTER the escapers "
+                      "looked at it, so a byte removed / changed there can assemble a terminator ('--\\x00>' -> '-->', ']]\\x00>' -> ']]>') that the escaper never saw")
+    else:
+        raise Abstain(f"the writer handed to _flattenTree is `{src(handed)}`")
+    fs = ctx.func(FL, "flattenString")
+    for c in [c for c in walk_local(fs) if isinstance(c, ast.Call) and call_name(c) == "flatten" and len(c.args) >= 3]:
+        a = c.args[2]
+        ctx.check(isinstance(a, ast.Attribute) and a.attr == "write", "sink/output-not-rewritten", Q + "flattenString | writer handed to flatten",
+                  f"flattenString collects the output through `{src(a)}`, not through the plain write method of its buffer")
+
+
+def _s_slot_lookup(ctx):
+    """STRUCTURAL (decision domain): whether a frame answers a slot lookup is decided by key PRESENCE only - the guards of `return <value of the frame>` mention the frame and the
+    name (is None / in / truthiness of the frame), never the value"""
+    f = ctx.func(FL, "_getSlotValue")
+    q = Q + "_getSlotValue"
+    ps = param_names(f)
+    if len(ps) < 3:
+        raise Abstain(f"signature {ps}")
+    name, frames, default = ps[0], ps[1], ps[2]
+    g = ctx.cfg(f)
+    loops = [st for st in walk_local(f) if isinstance(st, ast.For) and frames in src(st.iter) and isinstance(st.target, ast.Name)]
+    if len(loops) != 1:
+        raise Abstain(f"{len(loops)} loops over the slot frames")
+    fr = loops[0].target.id
+    # names bound to the VALUE found in a frame: <frame>[name] / <frame>.get(name...)
+    def is_value_expr(e):
+        return (isinstance(e, ast.Subscript) and src(e.value) == fr) or (isinstance(e, ast.Call) and call_attr(e) == "get" and src(e.func.value) == fr) or \
+               (isinstance(e, ast.IfExp) and (is_value_expr(e.body) or is_value_expr(e.orelse)))
+    valnames = {t.id for st in ast.walk(loops[0]) if isinstance(st, ast.Assign) and is_value_expr(st.value) for t in st.targets if isinstance(t, ast.Name)}
+    valnames |= {st.target.id for st in ast.walk(loops[0]) if isinstance(st, ast.NamedExpr) and is_value_expr(st.value)}
+    rets = [st for st in ast.walk(loops[0]) if isinstance(st, ast.Return) and st.value is not None and (is_value_expr(st.value) or (isinstance(st.value, ast.Name) and st.value.id in valnames))]
+    if not rets:
+        raise Abstain("no `return <value of the frame>` inside the loop over the frames")
+
+    def atoms(e):
+        if isinstance(e, ast.BoolOp):
+            return [a for v in e.values for a in atoms(v)]
+        if isinstance(e, ast.UnaryOp) and isinstance(e.op, ast.Not):
+            return atoms(e.operand)
+        return [e]
+    n = 0
+    for r in rets:
+        for i in g.ids_of(r):
+            for t, lab in g.edge_guards(i):
+                te = g.node(t).ast
+                if te is None or not any(isinstance(x, ast.Name) and x.id in ({fr, name} | valnames) for x in ast.walk(te)):
+                    continue
+                for a in atoms(te):
+                    n += 1
+                    mentions_value = any((isinstance(x, ast.Name) and x.id in valnames) or is_value_expr(x) for x in ast.walk(a))
+                    presence = (isinstance(a, ast.Compare) and len(a.ops) == 1 and (
+                        (isinstance(a.ops[0], (ast.In, ast.NotIn)) and src(a.left) == name and src(a.comparators[0]) == fr) or
+                        (isinstance(a.ops[0], (ast.Is, ast.IsNot, ast.Eq, ast.NotEq)) and src(a.left) == fr and src(a.comparators[0]) == "None"))) or (isinstance(a, ast.Name) and a.id == fr)
+                    if mentions_value:
+                        ctx.violation("slot/decision-by-presence", q + f" | guard `{src(a)}` of `{src(r)}`",
+                                      f"whether a frame answers the lookup depends on the VALUE (`{src(a)}`): a slot filled with '', b'', [] or () counts as unfilled and an outer / "
+                                      "earlier fill, the default or UnfilledSlot takes its place - content of one element shows up in another")
+                    elif presence:
+                        ctx.ok("slot/decision-by-presence", q + f" | guard `{src(a)}` of `{src(r)}`")
+                    else:
+                        raise Abstain(f"guard `{src(a)}` of the frame's answer is neither a presence test nor a test of the value")
+    if n == 0:
+        raise Abstain("the frame's answer is returned unguarded")
+
+
+def _s_slot_frames(ctx):
+    """STRUCTURAL: the slot frame a Tag pushes is popped again on every path that leaves the Tag's branch (so it scopes the Tag's own subtree only)"""
+    f = norm_function(ctx, FL, "_flattenElement")
+    g = ctx.cfg(f)
+    q = Q + "_flattenElement"
+    pushes = [(n, c) for n, c in call_sites(g, lambda c: call_attr(c) == "append" and isinstance(c.func.value, ast.Name) and len(c.args) == 1 and src(c.args[0]).endswith(".slotData"))]
+    if not pushes:
+        raise Abstain("no <stack>.append(<tag>.slotData) in _flattenElement")
+    for n, c in pushes:
+        stack = c.func.value.id
+        pops = [m for m, c2 in call_sites(g, lambda c2: call_attr(c2) == "pop" and src(c2.func.value) == stack)]
+        w = g.path([n], [g.exit], avoid=pops, edge_ok=lambda a, b, l: l != "exc")
+        ctx.check(bool(pops) and w is None, "slot/frame-popped", q + f" | {src(c)}",
+                  "the slot frame pushed for a Tag stays on the stack after the Tag has been flattened (there is a path to the end of the branch without a pop): a slot in a LATER sibling or "
+                  "in the rest of the parent is answered from the finished Tag's fills instead of its own ancestors'", witness=g.describe(w))
+
+
+def _slot_scope(ctx):
+    """BOUNDED: a slot that FOLLOWS a filled sibling element is answered from its own ancestors"""
+    w = _flat_world(ctx)
+    q = Q + "_flattenElement"
+    bad, n = [], 0
+    for h in ("INNER <fill>", ""):
+        inner = Tag("span", {}, [slot("v")])
+        inner.slotData = {"v": h}
+        for tree in (Tag("div", {}, ["[", inner, "]", slot("v")]), Tag("div", {}, [inner, Tag("i", {"title": slot("v")}, [])])):
+            tree.slotData = {"v": "OUTER <fill>"}
+            n += 1
+            want = _expected(tree)
+            try:
+                doc = _flatten(w, tree)
+                got = _parse(doc)
+            except ModelRaised as e:
+                doc, got = f"raises {e.name}", None
+            if got != want:
+                bad.append((tree, doc, got, want))
+    msg = ""
+    if bad:
+        tree, doc, got, want = bad[0]
+        msg = (f"{_describe(tree)} with the outer fill v='OUTER <fill>' and the span's own fill v='INNER <fill>' is flattened to {doc!r}: the slot after the span shows the span's "
+               f"value; {len(bad)} of {n} trees wrong")
+    ctx.check(not bad, "slot/frame-scope", q + " | slot after a filled sibling element", msg, detail=f"{n} trees")
+
+
+class _Marker:
+    """a slot value of which only identity matters"""
+    _sa_model = True
+
+    def __init__(self, label, truthy):
+        self.label, self.truthy = label, truthy
+
+    def __bool__(self):
+        return self.truthy
+
+    def __repr__(self):
+        return self.label
+
+
+def _fe_slot_lookup(ctx):
+    """FINITE-EXHAUSTIVE over the abstract domain of a lookup: stacks of 0..3 frames, each frame None / empty / holding another key / holding the key with a falsy or a truthy
+    value (str, bytes, list, tuple, object), default None / falsy / truthy.  Oracle: the innermost frame that HAS the key answers with its value (whatever it is), else the default
+    unless it is None, else UnfilledSlot"""
+    f = ctx.func(FL, "_getSlotValue")
+    q = Q + "_getSlotValue"
+    w = _flat_world(ctx)
+    look = w.funcs["_getSlotValue"]
+    falsy = ["", b"", [], (), _Marker("<falsy object>", False)]
+    kinds = [("none", None), ("empty", {}), ("other", {"other": "o"}), ("truthy", None)] + [(f"falsy{i}", None) for i in range(len(falsy))]
+    bad, n = [], 0
+    for depth in range(0, 4):
+        for combo in itertools.product(range(len(kinds)), repeat=depth):
+            for dflt in (None, "", "DEFAULT"):
+                frames, want = [], ("default",)
+                for pos, k in enumerate(combo):
+                    kind = kinds[k][0]
+                    if kind == "truthy":
+                        v = f"value{pos}"
+                        frames.append({"s": v, "x": 1})
+                        want = ("value", v)
+                    elif kind.startswith("falsy"):
+                        v = falsy[int(kind[5:])]
+                        frames.append({"s": v})
+                        want = ("value", v)
+                    else:
+                        frames.append(kinds[k][1] if kinds[k][1] is None else dict(kinds[k][1]))
+                if depth == 3 and len(set(combo)) == 3 and n % 3:      # thin out the deepest level: every pair of kinds in every order is still covered by depth 2
+                    n += 1
+                    continue
+                n += 1
+                try:
+                    got = ("value", look("s", frames, dflt))
+                except ModelRaised as e:
+                    got = ("raises", e.name)
+                if want[0] == "default":
+                    want_ = ("raises", "UnfilledSlot") if dflt is None else ("value", dflt)
+                else:
+                    want_ = want
+                same = got[0] == want_[0] and (got[1] is want_[1] or (got[0] == "raises" and got[1] == want_[1]) or (isinstance(want_[1], (str, bytes)) and got[1] == want_[1] and type(got[1]) is type(want_[1])))
+                if not same:
+                    bad.append(([("None" if fr_ is None else repr(fr_)) for fr_ in frames], dflt, got, want_))
+    msg = ""
+    if bad:
+        frs, dflt, got, want_ = bad[0]
+        msg = (f"slot 's' looked up in the frames [{', '.join(frs)}] (innermost last), default {dflt!r}: {'gives ' + repr(got[1]) if got[0] == 'value' else 'raises ' + got[1]} instead of "
+               f"{repr(want_[1]) if want_[0] == 'value' else 'raising ' + want_[1]}; {len(bad)} of {n} lookups wrong")
+    ctx.check(not bad, "slot/nearest-frame-wins", q + " | <frame stacks x value kinds x default>", msg, detail=f"{n} lookups")
+
+
+CONTROLS = [b"\x00", b"\x01", b"\x08", b"\x0b", b"\x0c", b"\x1b", b"\x1f", b"\x7f", b"\t", b"\n", b"\r"]
+
+
+def _flatten_control(ctx):
+    """BOUNDED: comment / CDATA / text data with a control character INSIDE a terminator sequence (every inner position of '-->', '--!>', ']]>', and before a leading '>'),
+    flattened through flatten() itself; the document is judged with the tokenizer oracles: the comment / the CDATA sections end exactly where the flattener ended them and the
+    data comes back unchanged"""
+    w = _flat_world(ctx)
+    q = Q + "flatten"
+    bad, n = [], 0
+    fam = []
+    for c in CONTROLS:
+        for term in (b"-->", b"--!>"):
+            for i in range(1, len(term)):
+                fam.append(("comment", b"a" + term[:i] + c + term[i:] + b"<script>x</script>"))
+        fam.append(("comment", c + b"><script>x</script>"))
+        fam.append(("comment", b"-" + c + b"><script>x</script>"))
+        for i in range(1, 3):
+            fam.append(("cdata", b"a" + b"]]>"[:i] + c + b"]]>"[i:] + b"<script>x</script>"))
+        fam.append(("text", b"a" + c + b"<b>"))
+    for kind, data in fam:
+        n += 1
+        d = data.decode("latin-1")
+        node = Comment(d) if kind == "comment" else CDATA(d) if kind == "cdata" else d
+        try:
+            doc = _flatten(w, Tag("p", {}, [node, "TAIL"]))
+        except ModelRaised as e:
+            bad.append((kind, d, f"raises {e.name}"))
+            continue
+        raw = d.encode("utf-8")
+        if not (doc.startswith(b"<p>") and doc.endswith(b"TAIL</p>")):
+            bad.append((kind, d, f"is flattened to {doc!r}"))
+            continue
+        inner = doc[3:-len(b"TAIL</p>")]
+        if kind == "comment":
+            if not (inner.startswith(b"<!--") and inner.endswith(b"-->") and html5_comment_end(inner + b"TAIL</p>") == len(inner)):
+                bad.append((kind, d, f"is flattened to {doc!r}: an HTML tokenizer ends the comment before the flattener's own '-->', the rest of the data is markup"))
+        elif kind == "cdata":
+            if _parse_cdata(inner) != raw:
+                bad.append((kind, d, f"is flattened to {doc!r}: the CDATA sections " + ("end early / do not cover the data" if _parse_cdata(inner) is None else f"carry {_parse_cdata(inner)!r}")))
+        else:
+            if html.unescape(inner.decode("utf-8")) != d or b"<" in inner or b">" in inner:
+                bad.append((kind, d, f"is flattened to {doc!r}: the text does not come back unchanged"))
+    msg = ""
+    if bad:
+        kind, d, why = bad[0]
+        msg = f"{ {'comment': 'Comment', 'cdata': 'CDATA', 'text': 'text'}[kind] }({d!r}) {why}; {len(bad)} of {n} data strings wrong"
+    ctx.check(not bad, "flatten/terminators-with-control-characters", q + " | <control character inside '-->' / '--!>' / ']]>' / before a leading '>'>", msg, detail=f"{n} data strings")
+
+
 # ---- (b) escapers ----------------------------------------------------------------------------------------
 MODULE_ENV: dict = {}      # module-level compiled patterns / constants of _flatten.py (filled by check())
 
@@ -772,6 +1065,13 @@ def _escaper_comment(ctx):
 
 
 MUTANTS = [
+    Mutant("writer-drops-nul-bytes-after-escaping", FL, "    return ensureDeferred(_flattenTree(request, root, write))\n",
+           "    return ensureDeferred(_flattenTree(request, root, lambda data: write(data.replace(b\"\\x00\", b\"\"))))\n", expect_rule="sink/output-not-rewritten"),
+    Mutant("writer-normalises-line-ends-after-escaping", FL, "    return ensureDeferred(_flattenTree(request, root, write))\n",
+           "    def tidy(data):\n        return write(data.replace(b\"\\r\", b\"\"))\n\n    return ensureDeferred(_flattenTree(request, root, tidy))\n"),
+    Mutant("slot-answer-needs-a-truthy-value", FL, "        if slotFrame is not None and name in slotFrame:\n", "        if slotFrame is not None and slotFrame.get(name):\n", expect_rule="slot/"),
+    Mutant("slot-lookup-outermost-frame-first", FL, "    for slotFrame in reversed(slotData):\n", "    for slotFrame in slotData:\n", expect_rule="slot/nearest-frame-wins"),
+    Mutant("slot-default-only-when-truthy", FL, "        if default is not None:\n            return default\n", "        if default:\n            return default\n", expect_rule="slot/nearest-frame-wins"),
     Mutant("large-chunk-bypasses-buffer", FL, "        nonlocal bufSize\n        buf.append(bs)\n        bufSize += len(bs)\n", "        nonlocal bufSize\n        if len(bs) > BUFFER_SIZE:\n            write(bs)\n            return\n        buf.append(bs)\n        bufSize += len(bs)\n"),
     Mutant("flush-keeps-buffer", FL, "            write(b\"\".join(buf))\n            del buf[:]\n", "            write(b\"\".join(buf))\n"),
     Mutant("content-drops-gt", FL, "    data = data.replace(b\"&\", b\"&amp;\").replace(b\"<\", b\"&lt;\").replace(b\">\", b\"&gt;\")", "    data = data.replace(b\"&\", b\"&amp;\").replace(b\"<\", b\"&lt;\")"),
@@ -798,6 +1098,11 @@ MUTANTS = [
     Mutant("comment-close-before-data", FL, "        write(b\"<!--\")\n        write(escapedComment(root.data))\n        write(b\"-->\")", "        write(b\"<!--\")\n        write(b\"-->\")\n        write(escapedComment(root.data))"),
 ]
 SILENT = [
+    Silent("writer-passed-through-a-plain-forwarder", FL, "    return ensureDeferred(_flattenTree(request, root, write))\n",
+           "    def passOn(data):\n        return write(data)\n\n    return ensureDeferred(_flattenTree(request, root, passOn))\n"),
+    Silent("slot-frame-tested-by-truthiness", FL, "        if slotFrame is not None and name in slotFrame:\n", "        if slotFrame and name in slotFrame:\n"),
+    Silent("slot-lookup-without-for-else", FL, "            return slotFrame[name]\n    else:\n        if default is not None:\n            return default\n        raise UnfilledSlot(name)\n",
+           "            return slotFrame[name]\n    if default is not None:\n        return default\n    raise UnfilledSlot(name)\n"),
     Silent("dispatch-as-guard-clauses-with-inlined-temporaries", FL, "    if isinstance(root, (bytes, str)):\n        write(dataEscaper(root))\n    elif isinstance(root, slot):\n        slotValue = _getSlotValue(root.name, slotData, root.default)\n        yield keepGoing(slotValue)\n    elif isinstance(root, CDATA):",
            "    if isinstance(root, (bytes, str)):\n        write(dataEscaper(root))\n        return\n    if isinstance(root, slot):\n        yield keepGoing(_getSlotValue(root.name, slotData, root.default))\n        return\n    if isinstance(root, CDATA):"),
     Silent("content-escaper-by-regex-table", FL, "    data = data.replace(b\"&\", b\"&amp;\").replace(b\"<\", b\"&lt;\").replace(b\">\", b\"&gt;\")",
